@@ -218,8 +218,13 @@ def work(case):
         p = os.path.join(td, "in" + ext)
         with open(p, "wb") as f:
             f.write(data)
+        # the path argument in the forms the signature allows (str | Path | None), for files that exist and for names that do not
+        import pathlib
+        forms = [p, pathlib.Path(p), pathlib.Path("elsewhere") / "dir" / ("in" + ext), "https://host.example/lib/in" + ext, None, pathlib.PurePosixPath("rel") / ("in" + ext)]
+        path_arg = forms[case["id"] % len(forms)]
+        out["path_form"] = type(path_arg).__name__
         try:
-            results = list(obs.extractor(kind)(io.BytesIO(data), p))
+            results = list(obs.extractor(kind)(io.BytesIO(data), path_arg))
         except Exception as e:
             out["exc"] = obs.exc_record(e)
             return out
